@@ -7,7 +7,8 @@ struct fs_file fs_files[FS_NFILES];
 int fs_fd_file[FS_FD_MAX + 1];
 int fs_bad_fd_ops, fs_opens, fs_closes, fs_pwrites, fs_short_writes, fs_write_errors;
 int fs_faults_enabled, fs_short_writes_enabled;
-int fs_fail_pwrite_from = -1, fs_fail_pwrite_at = -1, fs_fail_open_at = -1;
+int fs_fail_pwrite_from = -1, fs_fail_pwrite_at = -1, fs_fail_open_at = -1, fs_fail_flock_at = -1;
+int fs_flocks;
 static int verif_errno_;
 
 void
@@ -16,7 +17,8 @@ fs_reset(void)
     for (int i = 0; i <= FS_FD_MAX; ++i) fs_fd_file[i] = -1;
     for (int i = 0; i < FS_NFILES; ++i) { fs_files[i].exists = 0; fs_files[i].len = 0; for (int k = 0; k < FS_FMAX; ++k) fs_files[i].data[k] = 0; }
     fs_bad_fd_ops = fs_opens = fs_closes = fs_pwrites = fs_short_writes = fs_write_errors = 0;
-    fs_fail_pwrite_from = fs_fail_pwrite_at = fs_fail_open_at = -1;
+    fs_fail_pwrite_from = fs_fail_pwrite_at = fs_fail_open_at = fs_fail_flock_at = -1;
+    fs_flocks = 0;
 }
 int
 fs_open_count(void)
@@ -70,6 +72,7 @@ SYS(flock)(int fd, int op)
 {
     (void)op;
     if (!owned(fd)) { ++fs_bad_fd_ops; verif_errno_ = 9; return -1; }
+    if (fs_faults_enabled && fs_flocks++ == fs_fail_flock_at) { verif_errno_ = 11; return -1; } /* EWOULDBLOCK: locked by someone else */
     return 0;
 }
 int
